@@ -141,7 +141,8 @@ theorem freshInit_notebook (P : Params) (v : Variant) (c : Core) (w : World) :
 theorem Core.Clean.inv {c : Core} (h : c.Clean) : Inv c := ⟨h.modules, fun _ => h⟩
 
 theorem scanCall_inv (P : Params) (v : Variant) (cb : Nat → CbRet) (stack : Nat) (s : Sc) (it : It) (w : World)
-    (hm : s.core.modules = []) (hn : it.lastError = .blockNotReady → s.core.notebook = true) :
+    (hm : s.core.modules = [])
+    (hn : v.resumeNeedsPending = true ∨ (it.lastError = .blockNotReady → s.core.notebook = true)) :
     Inv (scanCall P v cb stack s it w).sc.core ∧
     ((scanCall P v cb stack s it w).rc = .blockNotReady → (scanCall P v cb stack s it w).sc.core.notebook = true) := by
   have key : ∀ (o : LoopOut), o.core.modules = [] → o.core.notebook = true →
@@ -159,7 +160,14 @@ theorem scanCall_inv (P : Params) (v : Variant) (cb : Nat → CbRet) (stack : Na
   · split
     · rename_i hle
       have f := blockLoop_frame P cb s.set it.rest it.sched s.core w
-      exact key _ (f.modules.trans hm) (f.notebook.trans (hn hle))
+      simp only [Bool.and_eq_true, decide_eq_true_eq, Bool.or_eq_true, Bool.not_eq_true'] at hle
+      have hnb : s.core.notebook = true := by
+        rcases hn with hv | hn
+        · rcases hle.2 with h | h
+          · exact h
+          · rw [hv] at h; cases h
+        · exact hn hle.1
+      exact key _ (f.modules.trans hm) (f.notebook.trans hnb)
     · have f := blockLoop_frame P cb s.set it.all it.sched (freshInit P v s.core w) w
       exact key _ (f.modules.trans ((freshInit_modules ..).trans hm)) (f.notebook.trans (freshInit_notebook ..))
 
@@ -218,9 +226,14 @@ theorem scanCall_congr (P : Params) (v : Variant) (cb : Nat → CbRet) (stack : 
 
 /-- a scan started on a scanner satisfying the invariant is the scan started on a new scanner -/
 theorem scanCall_fresh_eq (P : Params) (cb : Nat → CbRet) (stack : Nat) (s : Sc) (it : It) (w : World)
-    (hcb : s.set.hasCallback = true) (hi : Inv s.core) (hne : it.lastError ≠ .blockNotReady) :
+    (hcb : s.set.hasCallback = true) (hi : Inv s.core)
+    (hne : it.lastError ≠ .blockNotReady ∨ s.core.notebook = false) :
     (scanCall P .fixed cb stack s it w).obs = (scanCall P .fixed cb stack (Sc.fresh s.set) it w).obs := by
-  simp only [scanCall, Sc.fresh, if_neg hne, freshInit_forgets P s.core w hi, hcb]
+  have h1 : (decide (it.lastError = .blockNotReady) && (s.core.notebook || !Variant.fixed.resumeNeedsPending)) = false := by
+    rcases hne with h | h <;> simp [h, Variant.fixed]
+  have h2 : (decide (it.lastError = .blockNotReady) && (Core.fresh.notebook || !Variant.fixed.resumeNeedsPending)) = false := by
+    simp [Core.fresh, Variant.fixed]
+  simp only [scanCall, Sc.fresh, h1, h2, freshInit_forgets P s.core w hi, hcb]
   exact afterLoop_congr _ _ _ _ _ _ _ rfl
 
 /-- without a callback nothing is ever reported -/
@@ -250,33 +263,43 @@ theorem scanCall_set (P : Params) (v : Variant) (cb : Nat → CbRet) (stack : Na
 structure HInv (st : HSt) : Prop where
   inv : Inv st.sc.core
   susp : st.lastRc = .blockNotReady → st.sc.core.notebook = true
+  idle : st.lastRc ≠ .blockNotReady → st.sc.core.notebook = false
 
 theorem HInv.init (set : Settings) (w : World) : HInv (HSt.init set w) :=
-  ⟨Inv.fresh, fun h => by cases h⟩
+  ⟨Inv.fresh, fun h => (by cases h), fun _ => rfl⟩
 
-theorem stepH_inv (P : Params) (v : Variant) (st : HSt) (op : HOp) (h : HInv st) : HInv (stepH P v st op).1 := by
+theorem scanCall_hinv (P : Params) (v : Variant) (cb : Nat → CbRet) (stack : Nat) (s : Sc) (it : It) (w : World) (st : HSt)
+    (hm : s.core.modules = [])
+    (hn : v.resumeNeedsPending = true ∨ (it.lastError = .blockNotReady → s.core.notebook = true)) :
+    HInv (st.after (scanCall P v cb stack s it w) cb stack) := by
+  have := scanCall_inv P v cb stack s it w hm hn
+  exact ⟨this.1, this.2, fun h => (scanCall_clean P v cb stack s it w hm h).notebook⟩
+
+theorem stepH_inv (P : Params) (v : Variant) (st : HSt) (op : HOp) (h : HInv st)
+    (hv : (∃ x, op = .reuse x) → v.resumeNeedsPending = true) : HInv (stepH P v st op).1 := by
   cases op with
   | start x =>
-    simp only [stepH, HSt.after]
-    have := scanCall_inv P v x.cb x.stack st.sc x.it { st.w with nmsg := 0 } h.inv.modules (fun hh => by cases hh)
-    exact ⟨this.1, this.2⟩
+    simp only [stepH]
+    exact scanCall_hinv P v x.cb x.stack st.sc x.it _ st h.inv.modules (Or.inr (fun hh => by cases hh))
   | cont =>
     simp only [stepH]
     split
     · rename_i hl
-      simp only [HSt.after]
-      have := scanCall_inv P v st.cb st.stack st.sc st.it st.w h.inv.modules (fun _ => h.susp hl)
-      exact ⟨this.1, this.2⟩
+      exact scanCall_hinv P v st.cb st.stack st.sc st.it _ st h.inv.modules (Or.inr (fun _ => h.susp hl))
     · exact h
-  | config set => exact ⟨h.inv, h.susp⟩
+  | reuse x =>
+    simp only [stepH]
+    exact scanCall_hinv P v x.cb x.stack st.sc _ _ st h.inv.modules (Or.inl (hv ⟨x, rfl⟩))
+  | config set => exact ⟨h.inv, h.susp, h.idle⟩
   | proc mem =>
     cases mem with
     | none => exact h
     | some x =>
       simp only [stepH, HSt.after]
+      have hm : ({ st.sc with set := { st.sc.set with processMemory := true } } : Sc).core.modules = [] := h.inv.modules
       have := scanCall_inv P v x.cb x.stack { st.sc with set := { st.sc.set with processMemory := true } } x.it
-        { st.w with nmsg := 0 } h.inv.modules (fun hh => by cases hh)
-      exact ⟨this.1, this.2⟩
+        { st.w with nmsg := 0 } hm (Or.inr (fun hh => by cases hh))
+      exact ⟨this.1, this.2, fun hne => (scanCall_clean P v x.cb x.stack _ x.it _ hm hne).notebook⟩
 
 /-- **settings survive every call**: only `config` changes them (scan_proc restores what it found) -/
 theorem stepH_set (P : Params) (v : Variant) (st : HSt) (op : HOp) :
@@ -288,13 +311,22 @@ theorem stepH_set (P : Params) (v : Variant) (st : HSt) (op : HOp) :
     split
     · simp only [HSt.after]; exact scanCall_set ..
     · rfl
+  | reuse x => simp only [stepH, HSt.after]; exact scanCall_set ..
   | config set => rfl
   | proc mem => cases mem <;> rfl
 
-theorem runH_inv (P : Params) (v : Variant) (st : HSt) (ops : List HOp) (h : HInv st) : HInv (runH P v st ops) := by
+/-- histories that re-use an iterator object without resetting its `last_error` are only meaningful for the code that
+    resumes only when a scan is pending -/
+def reuseOk (v : Variant) (ops : List HOp) : Prop := ∀ op ∈ ops, (∃ x, op = .reuse x) → v.resumeNeedsPending = true
+
+theorem reuseOk_fixed (ops : List HOp) : reuseOk .fixed ops := fun _ _ _ => rfl
+
+theorem runH_inv (P : Params) (v : Variant) (st : HSt) (ops : List HOp) (h : HInv st) (hv : reuseOk v ops) :
+    HInv (runH P v st ops) := by
   induction ops generalizing st with
   | nil => exact h
-  | cons op ops ih => exact ih _ (stepH_inv P v st op h)
+  | cons op ops ih =>
+    exact ih _ (stepH_inv P v st op h (hv op (by simp))) (fun o ho => hv o (by simp [ho]))
 
 theorem runH_set (P : Params) (v : Variant) (st : HSt) (ops : List HOp) :
     (runH P v st ops).sc.set = settingsAfter st.sc.set ops := by
@@ -338,6 +370,12 @@ theorem stepH_equiv (P : Params) (v : Variant) (a b : HSt) (op : HOp) (h : HSt.E
       have e := obs_equiv this a.cb a.stack a b
       exact ⟨e.1, by rw [e.2]⟩
     · exact ⟨h, rfl⟩
+  | reuse x =>
+    simp only [stepH]
+    have := scanCall_congr P v x.cb x.stack a.sc b.sc { x.it with lastError := a.it.lastError } { a.w with nmsg := 0 } h.set h.core
+    rw [← h.w, ← h.it]
+    have e := obs_equiv this x.cb x.stack a b
+    exact ⟨e.1, by rw [e.2]⟩
   | config set => exact ⟨⟨rfl, h.core, h.it, h.cb, h.stack, h.w, h.lastRc⟩, rfl⟩
   | proc mem =>
     cases mem with
